@@ -107,10 +107,11 @@ Qed.
 Print Assumptions c20_readonly_frozen.
 
 (* the detector-level trace monitor holds on every history of FilterAddrs /
-   RecordResult / direct counter updates, from every initial detector *)
-Theorem c20_detector_trace_holds : forall d ops i,
-  monitor_det (d_ro d) (ost (d_udp d)) (ost (d_ip6 d)) i (dtrace d ops) = [].
-Proof. intros d ops i. exact (monitor_det_model ops d i). Qed.
+   RecordResult issued through a read-write or a read-only detector sharing the
+   two counters, and direct counter updates, from every initial pair of counters *)
+Theorem c20_detector_trace_holds : forall p ops i,
+  monitor_det (cview_of (fst p)) (cview_of (snd p)) i (dtrace p ops) = [].
+Proof. intros p ops i. exact (monitor_det_model ops p i). Qed.
 Print Assumptions c20_detector_trace_holds.
 
 (* regenerated obligation: every BlackHoleSuccessCounter literal in /repo's
@@ -142,6 +143,11 @@ Example monitor_rejects_no_probe :
                      (Req, Blocked); (Req, Blocked)] = false.
 Proof. reflexivity. Qed.
 
+(* a read-only detector that bumps the shared request counter is rejected *)
+Example monitor_rejects_readonly_change :
+  monitor_case [1; 2; 1; 0; 0;  10; 1; 0;  0; 1; 0; 0; 9; 0; 0; 0]%Z <> [].
+Proof. vm_compute. discriminate. Qed.
+
 Example monitor_rejects_private_removed :
-  monitor_case [1; 0; 2; 1; 0; 0;  10; 1; 2; 0; 0; 9]%Z <> [].
+  monitor_case [1; 2; 1; 0; 0;  10; 0; 1; 2; 0;  0; 0; 0; 0; 9; 0; 0; 0]%Z <> [].
 Proof. vm_compute. discriminate. Qed.
